@@ -452,10 +452,20 @@ class RecocoIOLoop (Task):
             wlist.remove(worker)
 
         for worker in rlist:
-          worker._do_recv(self)
+          try:
+            worker._do_recv(self)
+          except Exception:
+            # Don't let one worker's problem end IO for all of them
+            log.exception("Exception while receiving on %s", worker)
+            worker._do_exception(self)
+            if worker in wlist: wlist.remove(worker)
 
         for worker in wlist:
-          worker._do_send(self)
+          try:
+            worker._do_send(self)
+          except Exception:
+            log.exception("Exception while sending on %s", worker)
+            worker._do_exception(self)
 
       except GeneratorExit:
         # Must be shutting down
